@@ -30,6 +30,11 @@ Count(e, t, k) == Cardinality({p \in 1..Len(e) : e[p].t = t /\ e[p].k = k})
 Errs(e, k) == Cardinality({p \in 1..Len(e) : e[p].t = "ready" /\ e[p].k = k /\ e[p].a = 2})
 T_C07_RestartOnlyFailed == IsPoll =>
    \A k \in Svc : Count(PE, "create", k) <= Errs(PE, k) + (IF obs.prevSstatus[W0][k] = "Restarting" THEN 1 ELSE 0)
+\* a service whose readiness check failed is re-created in the same poll or is left marked for it (measured status)
+T_C07_FailedIsRecreated == IsPoll =>
+   \A p \in 1..Len(PE) : (PE[p].t = "ready" /\ PE[p].a = 2) =>
+      \/ \E q \in (p + 1)..Len(PE) : PE[q].t \in {"create", "createfail"} /\ PE[q].k = PE[p].k
+      \/ obs.st.sstatus[W0][PE[p].k] \in {"Failed", "Restarting"}
 T_C07_NoneLost == (IsPoll /\ obs.st.wstate[W0] = "Available" /\ obs.st.scriptsEmpty) => obs.st.chanLen[W0] = 0
 \* C06 worker side
 ReplyNow == obs.replyNow[W0]
